@@ -33,6 +33,11 @@
 (* P:earlier-unchanged  a query evaluated before returns the same values   *)
 (*           in the columns that existed then                              *)
 (* P:nested-shape  (rows,) with one distance function, (rows, K) with K    *)
+(* run events: P:scale on the scale left by the run, P:one-per-row, and    *)
+(*           P:newest ROW-WISE on the returned sample: the discrepancy of  *)
+(*           result row i is the newest distance of result row i's own     *)
+(*           summaries (P:result-row-not-simulated guards it: a returned   *)
+(*           summaries row must be one of the simulated rows)              *)
 (* M:*       the store follows the design recurrence (WelfordOps!AddData)  *)
 (***************************************************************************)
 EXTENDS Naturals, Integers, Sequences, FiniteSets, TLC, Json, IOUtils, DistanceOps, WelfordOps
